@@ -4,6 +4,7 @@
 -/
 import YashModel.Input.ChunkModel
 import YashModel.Input.Utf8
+import YashModel.Input.RedirLemmas
 namespace YashModel.Input
 
 theorem nextLineC_fst (cs : List (List Byte)) : (nextLine cs.flatten).1 = (nextLineC cs).1 := by
@@ -84,6 +85,16 @@ theorem step_set (k : List K) (s : State) (x : List Byte)
       | subsh b => rfl
       | andor l a r => rfl
       | neg c => rfl
+      | redir rs c =>
+        simp only [step]
+        rw [performIn_comm (fun s => { s with inp := x }) (fun _ => rfl) (fun _ _ => rfl)]
+        by_cases hf : (performIn rs [] s).2.2 = true
+        · simp only [hf, if_true]; rfl
+        · simp only [hf]
+          rw [undoIn_comm (fun s => { s with inp := x }) (fun _ _ => rfl)]; rfl
+    | undo saved =>
+      simp only [step]
+      rw [undoIn_comm (fun s => { s with inp := x }) (fun _ _ => rfl)]; rfl
     | branch t e he =>
       by_cases h0 : s.status = 0 <;> cases he <;> simp [step, h0]
     | andK a r =>
